@@ -149,6 +149,19 @@ def _run_property(ctx):
     for t in range(n):
         b = gen_nb.gen_notebook(rng)
         x, _ = gen_nb.edit_notebook(rng, b, nedits=rng.choice([1, 2, 3]))
+        if t % 4 == 3:
+            # X declares another format minor than base: saved by an older client (ids stripped) or a newer one (ids added)
+            m = rng.choice([k for k in range(0, 6) if k != b['nbformat_minor']])
+            x['nbformat_minor'] = m
+            used = gen_nb.used_ids(x)
+            for c in x['cells']:
+                if m >= 5:
+                    c.setdefault('id', gen_nb.new_id(rng, used))
+                else:
+                    c.pop('id', None)
+            if not gen_nb.is_valid(x):
+                x['nbformat_minor'] = b['nbformat_minor']
+            ctx.count('law-input:minor-changed')
         for a in [mergelib.Args('inline'), rng.choice(combos)] + ([rng.choice(combos)] if ctx.tier != 'quick' else []):
             laws_notebook(ctx, b, x, a, mergelib.RENDERERS[t % 3])
     for t in range(130 if ctx.tier == 'quick' else 1500):
